@@ -291,36 +291,7 @@ func checkC05(c *Ctx) {
 
 	// ---- (b) credentials ---------------------------------------------------
 	c.checkCanAuth()
-	for _, fn := range p.SrcFuncs("imapserver") {
-		if fn.Parent() != nil {
-			continue
-		}
-		var df *deepFlow
-		for _, f := range withAnon(fn) {
-			allInstrs(f, func(i ssa.Instruction) {
-				call, ok := i.(ssa.CallInstruction)
-				if !ok {
-					return
-				}
-				m, ok := isSessionInvoke(ifaces, call)
-				if !ok || (m != "Login" && m != "Authenticate") {
-					return
-				}
-				if df == nil {
-					df = gateFlowDeep(fn, facts{})
-				}
-				fs, reach := df.at(i)
-				key := fnKey(f) + "→" + m
-				if !reach {
-					c.okTrivial("C05.b", key, i.Pos(), "unreachable")
-					return
-				}
-				c.check(fs.has("ok:(*Conn).canAuth"), "C05.b", key, i.Pos(),
-					"dominated by the true edge of canAuth()",
-					"credentials handed to the backend on a path that has not passed canAuth() == true; facts: "+strings.Join(fs.list(), ","))
-			})
-		}
-	}
+	ruleCredentialsGated(c, "C05.b")
 
 	// ---- (d) loop exit -----------------------------------------------------
 	found := false
@@ -608,4 +579,41 @@ func (c *Ctx) checkDispatch(a *stateAnalysis) {
 		"default case sets Logout exactly when the state is NotAuthenticated",
 		fmt.Sprintf("default case: sets Logout=%v from %s", sawLogout, before))
 	c.check(sawBye, "C05.d", "unknown-command→BYE", deflt.Pos(), "BYE is sent (deferred) on that path", "no BYE on the unknown-command path")
+}
+
+// ruleCredentialsGated: every Session.Login / SessionSASL.Authenticate call is
+// dominated by the true edge of canAuth().
+func ruleCredentialsGated(c *Ctx, rule string) {
+	p := c.P
+	ifaces := sessionIfaces(p)
+	for _, fn := range p.SrcFuncs("imapserver") {
+		if fn.Parent() != nil {
+			continue
+		}
+		var df *deepFlow
+		for _, f := range withAnon(fn) {
+			allInstrs(f, func(i ssa.Instruction) {
+				call, ok := i.(ssa.CallInstruction)
+				if !ok {
+					return
+				}
+				m, ok := isSessionInvoke(ifaces, call)
+				if !ok || (m != "Login" && m != "Authenticate") {
+					return
+				}
+				if df == nil {
+					df = gateFlowDeep(fn, facts{})
+				}
+				fs, reach := df.at(i)
+				key := fnKey(f) + "→" + m
+				if !reach {
+					c.okTrivial(rule, key, i.Pos(), "unreachable")
+					return
+				}
+				c.check(fs.has("ok:(*Conn).canAuth"), rule, key, i.Pos(),
+					"dominated by the true edge of canAuth()",
+					"credentials handed to the backend on a path that has not passed canAuth() == true; facts: "+strings.Join(fs.list(), ","))
+			})
+		}
+	}
 }
